@@ -192,9 +192,16 @@ func cmdRun(args []string) {
 		switch {
 		case cfg.ExpectViolation:
 			// reachability twin: must produce a violation
-			if len(sum.Violations) > 0 {
+			ri := -1
+			for i, v := range sum.Violations {
+				if v.Kind == "assert" && v.Label == "reach" {
+					ri = i
+					break
+				}
+			}
+			if ri >= 0 {
 				hr.Verdict = "reach-ok"
-				v0 := sum.Violations[0]
+				v0 := sum.Violations[ri]
 				hr.ReachModel = &v0
 				hr.Violations = nil
 			} else {
